@@ -276,8 +276,8 @@ func removeAll(fs FS, path string) error {
 			return &PathError{Op: "removeall", Path: path, Err: err}
 		}
 	}
-	if err := Remove(fs, path); err == nil || errors.Is(err, ErrNotExist) {
-		return nil
+	if err := Remove(fs, path); err != nil && !errors.Is(err, ErrNotExist) {
+		return err
 	}
 	return nil
 }
